@@ -240,7 +240,7 @@ pub fn gen_history(r: &mut Rng, mean_ops: u64, max_ops: u64) -> (Vec<Actor>, Vec
     (actors, ops, skeleton)
 }
 
-pub fn generate(r: &mut Rng, _tier: Tier) -> serde_json::Value {
+pub fn generate(r: &mut Rng, _tier: Tier, _group: u64) -> serde_json::Value {
     let (actors, mut ops, skeleton) = gen_history(r, 8, 25);
     // observation points: up to 3 inside the history, the final state is always observed
     let nobs = r.below(4);
